@@ -356,6 +356,53 @@ func CondBroadcast(c *sync.Cond, site int32) {
 	park(KCondBroadcast, site, uintptr(unsafe.Pointer(c)), 0)
 }
 
+// ---- sync.Pool: a deterministic, maximally reusing stand-in ----
+//
+// The real Pool hands objects back depending on which P a goroutine happens to
+// run on and on GC timing: not replayable, and reuse is rare in short runs. In
+// simulation every Pool is a LIFO stack: Get returns the most recently Put
+// object whenever there is one (the rare thing made common), else New().
+// The stack is guarded by an ordinary mutex taken outside RaceDisable, which
+// gives Put -> Get the same happens-before edge the real Pool documents.
+
+var (
+	poolMu sync.Mutex
+	pools  = map[*sync.Pool][]any{}
+)
+
+func PoolGet(p *sync.Pool, site int32) any {
+	if cur == nil {
+		return p.Get()
+	}
+	poolMu.Lock()
+	st := pools[p]
+	var x any
+	if n := len(st); n > 0 {
+		x = st[n-1]
+		st[n-1] = nil
+		pools[p] = st[:n-1]
+	}
+	poolMu.Unlock()
+	if x == nil && p.New != nil {
+		x = p.New()
+	}
+	park(KSyncPost, site, 0, 0)
+	return x
+}
+
+func PoolPut(p *sync.Pool, x any, site int32) {
+	if cur == nil {
+		p.Put(x)
+		return
+	}
+	if x != nil {
+		poolMu.Lock()
+		pools[p] = append(pools[p], x)
+		poolMu.Unlock()
+	}
+	park(KSyncPost, site, 0, 0)
+}
+
 // PreSync / PostSync bracket sync operations that are not modelled in detail
 // (WaitGroup, Cond signalling, ...): they only add scheduling points so that
 // the goroutines involved park before running library code.
